@@ -180,6 +180,11 @@ func init() {
 				table = append(table, q)
 			}
 		}
+		for i, sh := range scopingShapes {
+			q := mkShapeProgram("V"+itoa(100+i), sh)
+			q.tag("shadow")
+			table = append(table, q)
+		}
 		for i, sh := range optimiserBait {
 			if strings.Contains(sh.name, "shadowing") {
 				q := mkShapeProgram("O"+itoa(100+i), sh)
